@@ -16,7 +16,9 @@
    white-space rules (RFC 7950 says after; the code does it before).  Both orders
    are defined here and a string is *judged* only if they give the same value.
    A backslash before any other character and a CR that is not part of CR LF are
-   outside the judged space as well.
+   outside the judged space as well.  The column of the opening quote is counted
+   in characters (RFC 6020 speaks of columns): a character of 2, 3 or 4 bytes
+   before the quote on its line takes one column like any other.
 
    A source text is a sequence of code points (YangChars).                      *)
 EXTENDS YangChars
@@ -26,10 +28,9 @@ RECURSIVE WidthBack(_, _)
 WidthBack(t, i) == IF i < 1 \/ t[i] = LF THEN 0 ELSE ColW(t[i]) + WidthBack(t, i - 1)
 \* column of the last character of t (the opening quote), counted from 1
 QuoteCol(t) == WidthBack(t, Len(t))
+\* (a column is a character position: a tab takes 8, every other character - of however many bytes - takes 1)
 RECURSIVE AsciiBack(_, _)
 AsciiBack(t, i) == IF i < 1 \/ t[i] = LF THEN TRUE ELSE IsAscii(t[i]) /\ AsciiBack(t, i - 1)
-\* the column is a matter of counting only if everything before the quote on its line is ASCII
-QuoteColPlain(t) == AsciiBack(t, Len(t))
 
 RECURSIVE SplitAcc(_, _, _)
 SplitAcc(s, i, cur) == IF i > Len(s) THEN <<cur>>
@@ -88,7 +89,7 @@ RenderFrom(text, value, judged, pieces, joins, k) ==
           ELSE IF p.q = "s" THEN RenderFrom(t0 \o <<SQ>> \o p.src \o <<SQ>>, value \o p.src, judged, pieces, joins, k + 1)
           ELSE LET t1 == Append(t0, DQ)  qc == QuoteCol(t1) IN
                RenderFrom(t1 \o p.src \o <<DQ>>, value \o DecodeDQ(p.src, qc),
-                          judged /\ JudgedDQ(p.src, qc) /\ (QuoteColPlain(t1) \/ \A i \in 1..Len(p.src) : p.src[i] # LF),
+                          judged /\ JudgedDQ(p.src, qc),
                           pieces, joins, k + 1)
 RenderArg(before, pieces, joins) == RenderFrom(before, << >>, TRUE, pieces, joins, 1)
 
